@@ -4527,3 +4527,5 @@ mod test {
 #[cfg(kani)]
 #[path = "/verif/kani/harness/layout.rs"]
 mod verif_kani;
+#[cfg(kani)]
+pub use verif_kani::verif_with_queued_iter;
